@@ -353,6 +353,9 @@ def check(prop, tier, seed, replay=None):
     if tier == "quick":
         plan_ = [("n1", 400, False, True), ("n2", 1500, False, True), ("n3", 1200, False, False),
                  ("n4", 600, False, False)]
+        if prop == "C11":
+            # reads with no context open (presence checks, getters) next to the two alternating objects
+            plan_.append(("modes", 1200, False, True))
         if prop == "C08":
             plan_ = [("modes", 3000, True, True), ("n2", 1500, False, True), ("n1", 300, False, True)]
     else:
